@@ -275,6 +275,7 @@ class TypeChecker:
             )
 
         default_block = False
+        options = []
         for option_val, option_code in switch.options:
             self.check_stmt(option_code)
 
@@ -282,7 +283,11 @@ class TypeChecker:
                 # default case
                 default_block = True
             else:
-                self.check_expr(option_val)
+                # The value is compared with the integer expression:
+                self.check_expr(option_val, rvalue=True)
+                option_val = self.do_coerce(option_val, "int")
+            options.append((option_val, option_code))
+        switch.options = options
 
         if not default_block:
             raise SemanticError(
